@@ -35,7 +35,7 @@ ASSUMPTIONS = ['not judged: then-steps naming a state that does not exist, map_a
 THEN_KINDS = ['state entered', 'state not entered', 'state exited', 'state not exited', 'state active', 'state not active',
               'event fired', 'event fired with', 'event fired table', 'event not fired', 'no event fired', 'variable equals',
               'variable not equal', 'expression holds', 'expression not hold', 'final', 'not final']
-REQUIRED_COUNTERS = ['long_step_scenarios', 'runs_with_two_feature_files', 'mutable_literal_parameters', 'cross_event_parameter_mix', 'features_with_background', 'given_step_after_when', 'feature_files', 'scenarios', 'then_steps_checked', 'given_when_steps_checked', 'testing_predicate_checks',
+REQUIRED_COUNTERS = ['table_reproduce_scenarios', 'long_step_scenarios', 'runs_with_two_feature_files', 'mutable_literal_parameters', 'cross_event_parameter_mix', 'features_with_background', 'given_step_after_when', 'feature_files', 'scenarios', 'then_steps_checked', 'given_when_steps_checked', 'testing_predicate_checks',
                      'blocks_without_macro_step', 'same_event_twice_in_step'] + \
     ['then_%s_%s' % (k.replace(' ', '_'), v) for k in THEN_KINDS for v in ('true', 'false')]
 
@@ -120,7 +120,8 @@ def make_chart(rnd):
                                           gmod=2, grem=0, after=1, priority=0, sends=[], contracts=dict(pre=[], post=[], inv=[]),
                                           tguard=None))
             ch['events'] = ch['events'] + ['finish']
-        ch['preamble'] = 'x = 0\ns = ""\nentries = 0\nexits = 0\nbag = []'
+        # (abs: a variable of the chart that happens to have the name of a builtin - expected values are plain Python expressions)
+        ch['preamble'] = 'x = 0\ns = ""\nentries = 0\nexits = 0\nbag = []\nabs = 1'
         ch['outs'] = outs
         # same-source eventless transitions would be non-deterministic: keep at most one per state
         seen = set()
@@ -155,15 +156,17 @@ def gen_scenario(rnd, ch, idx, earlier, orc):
             return (kw, 'I send event %s' % ev, [('p', str(rnd.randint(0, 3)))])
         if r < 0.66:
             orc.acc.count('mutable_literal_parameters')
-            lit = rnd.choice(('[1, 2]', '[1, 2]', '[]', '[0]', "['a|b']", "['x|', '|']"))      # the same literal text comes back in later steps and scenarios
-            if rnd.random() < 0.5:
+            special = rnd.random() < 0.4
+            lit = rnd.choice(("['a|b']", "['x|', '|']", "['a\\\\b']", "['\\\\|']") if special else ('[1, 2]', '[1, 2]', '[]', '[0]'))
+            # (the same literal text comes back in later steps and scenarios; cells with pipes / backslashes travel through tables)
+            if rnd.random() < (0.3 if special else 0.5):
                 return (kw, 'I send event %s with q=%s' % (ev, lit), None)
             return (kw, 'I send event %s' % ev, [('q', lit)])
         if r < 0.72:
             return (kw, 'I wait %s seconds' % rnd.choice(['1', '2.5', '5', '6']), None)
         if r < 0.76:
             return (kw, 'I wait 1 second', None)
-        if r < 0.84:
+        if r < 0.80:
             return (kw, 'I repeat "I send event %s" %d times' % (ev, rnd.randint(1, 3)), None)
         if r < 0.9 and earlier:
             return (kw, 'I reproduce "%s"' % rnd.choice(earlier), None)
@@ -243,6 +246,9 @@ def gen_scenario(rnd, ch, idx, earlier, orc):
                     cur = it.context.get(var, 0)
                     val = cur if (want == (kind == 'variable equals')) else cur + rnd.choice((1, 2, -1))
                     text = 'variable %s %s %d' % (var, 'equals' if kind == 'variable equals' else 'does not equal', max(val, 0))
+                    if rnd.random() < 0.2:
+                        text = 'variable %s %s abs(-%d)' % (var, 'equals' if kind == 'variable equals' else 'does not equal', max(val, 0))
+                        add_count('expected_values_using_a_builtin')
             elif kind in ('expression holds', 'expression not hold'):
                 x = it.context.get('x', 0)
                 pos = (kind == 'expression holds') == want
@@ -372,7 +378,7 @@ class Oracle:
             return any(e.name == m.group(1) and all(getattr(e, k, None) == v for k, v in params.items()) for e in sent) != bool(m.group(2))
         if text == 'no event is fired':
             return not sent
-        m = re.match(r'variable (\w+) (equals|does not equal) (\d+|\[.*\])$', text)
+        m = re.match(r'variable (\w+) (equals|does not equal) (\d+|\[.*\]|abs\(-\d+\))$', text)
         if m:
             if m.group(1) not in it.context:
                 return False
@@ -458,9 +464,67 @@ def long_run_case(acc, rnd):
             return
 
 
+TABLE_CHART = '''statechart:
+  name: table
+  preamble: bag = []
+  root state:
+    name: root
+    initial: s
+    states:
+      - name: s
+        transitions:
+          - event: put
+            action: bag.append(event.v)
+'''
+CELLS = ["'a\\\\b'", "'x|y'", "'\\\\|'", "'|'", "'C:\\\\dir\\\\f'", "'re\\\\d+'", "'plain'", "'q\\\\'", "['\\\\', '|']", "'a\\\\|b'"]
+
+
+def table_reproduce_case(acc, rnd):
+    """Event parameters given through tables whose cells contain pipes and backslashes, in a scenario that is reproduced by
+    another one: the reproduced steps send the very same values."""
+    lits = [rnd.choice(CELLS) for _ in range(3)]
+    vals = [eval(x) for x in lits]
+
+    def cell(x):
+        return x.replace('|', '\\|')
+    ftext = ('Feature: tables\n\n  Scenario: base\n    When I send event put\n      | parameter | value |\n      | v | %s |\n'
+             '    Then expression "bag == %r" holds\n\n  Scenario: again\n    Given I reproduce "base"\n    When I send event put\n'
+             '      | parameter | value |\n      | v | %s |\n    Then expression "bag == %r" holds\n\n  Scenario: twice\n'
+             '    Given I reproduce "again"\n    And I reproduce "base"\n    When I send event put\n      | parameter | value |\n'
+             '      | v | %s |\n    Then expression "bag == %r" holds\n'
+             % (cell(lits[0]), [vals[0]], cell(lits[1]), [vals[0], vals[1]], cell(lits[2]), [vals[0], vals[1], vals[0], vals[2]]))
+    if '"' in ftext.replace('"bag', '').replace('" holds', '').replace('"base"', '').replace('"again"', ''):
+        return
+    os.makedirs(os.path.join(VERIF_DIR, '.work'), exist_ok=True)
+    d = tempfile.mkdtemp(prefix='c19-', dir=os.path.join(VERIF_DIR, '.work'))
+    try:
+        chart_fp, feat_fp, out_fp = os.path.join(d, 'chart.yaml'), os.path.join(d, 'f.feature'), os.path.join(d, 'out.json')
+        open(chart_fp, 'w').write(TABLE_CHART)
+        open(feat_fp, 'w').write(ftext)
+        code = CHILD % dict(repo=REPO, chart=chart_fp, features=[feat_fp], out=out_fp)
+        try:
+            subprocess.run([PYTHON, '-B', '-c', code], stdout=subprocess.PIPE, stderr=subprocess.PIPE, text=True, timeout=600,
+                           cwd=d, env=dict(os.environ, PYTHONPATH=REPO))
+            rep = json.load(open(out_fp))
+        except Exception as e:      # noqa
+            acc.note_inconclusive('table case: no report from behave (%s)' % (e,))
+            return
+    finally:
+        shutil.rmtree(d, ignore_errors=True)
+    acc.count('table_reproduce_scenarios')
+    for el in [e for e in rep[0]['elements'] if e['type'] == 'scenario']:
+        st = [(x['name'], x.get('result', {}).get('status')) for x in el['steps']]
+        if any(status != 'passed' for _n, status in st):
+            acc.violation('C19:unsound-verdict', 'table cells %r: scenario %r reported %r; every assertion is true on a plain interpreter '
+                          'given those values' % (lits, el['name'], st), dict(feature=ftext))
+            return
+
+
 def run_case(acc, rnd, tier, case):
     if case % 16 == 9:
         return long_run_case(acc, rnd)
+    if case % 16 == 3:
+        return table_reproduce_case(acc, rnd)
     ch = make_chart(rnd)
     coder = RealCoder()
     yaml_text = build.dump_yaml(build.to_document(ch, coder=coder))
